@@ -169,6 +169,9 @@ func cmdCheck(args []string) int {
 				refs = append(refs, ref{res: r, viol: v})
 			}
 			for k := range r.Ex.valCases {
+				if r.Spec.NoValidate {
+					break // the native outcome depends on wall time: only counterexamples are replayed
+				}
 				vc := &r.Ex.valCases[k]
 				cases = append(cases, nativeCase{Harness: r.Cfg.Func, Vec: vc.Vec, Tier: tier, Sched: vc.Sched})
 				refs = append(refs, ref{res: r, val: vc})
